@@ -60,6 +60,9 @@ THEOREMS = [
     "FaxVerif.C07.leak_counterexample_job_blocks",
     "FaxVerif.C07.leak_counterexample_extended_md",
     "FaxVerif.C07.leak_counterexample_name_counter",
+    "FaxVerif.C07.retranslation_indep_on_partial",
+    "FaxVerif.C07.retranslation_indep_new_partial",
+    "FaxVerif.C07.leak_counterexample_reused_ast",
 ]
 RULE = (
     "case = (history of <=8 (quick) / <=14 (thorough) operations, probe): operations are `new executor` of any of the 3 "
@@ -73,7 +76,17 @@ RULE = (
     "in the func_adl rewrites, in the C++ finder, in write_cpp_files); the probe is a catalogue query with its own "
     "metadata, on a new executor or on an existing one. Every case runs in its own Python process; the candidate history "
     "is cut before the first operation outside the theorems' hypotheses. Non-trivial = the history contains at least one "
-    "translation that reached reset() AND (one that failed OR a second executor); distinct = distinct (history, probe)."
+    "translation that reached reset() AND (one that failed OR a second executor); distinct = distinct (history, probe). "
+    "Besides the catalogue, probe (~45%) and history (~30% of the translations) queries are drawn from a typed grammar "
+    "(`gen_family_query`: six query shapes over one collection; element expressions of depth <=3 over methods the query "
+    "declares for itself with return types inside {int,float,double} and outside it {short, unsigned int, unsigned long, "
+    "long, long double}, default-typed methods, constants, + - * /, unary minus, 26 documented math functions, C++ "
+    "functions the query declares under fresh names and under names of math functions); a history query of that kind "
+    "prefers the function names and return types the probe uses. A quarter of the cases hand the probe's own AST object "
+    "to an executor one or more times before the probe (operations carrying the same `obj` label share one Python "
+    "object) — only for queries without MetaData (with MetaData: listed finding). After every operation the harness also "
+    "fingerprints ALL module- and class-level data and mutable default arguments of the package's modules outside the "
+    "model's state: any change is a broken correspondence."
 )
 TRUSTED_BASE = [
     "hand model of executor.__init__/add_extended_md/apply_ast_transformations/write_cpp_files/reset and of process_metadata's side effects (Model.lean), tied to the code by the state comparison after every operation of every history of this run",
@@ -83,7 +96,7 @@ TRUSTED_BASE = [
 ]
 ASSUMPTIONS = [
     "queries are handled as (add_extended_md;) apply_ast_transformations; write_cpp_files on one executor, one after the other (no interleaving, no threads)",
-    "every query arrives as a freshly parsed AST (no AST object is shared between two translations)",
+    "a query arrives as a freshly parsed AST, or — if it carries no MetaData — as an AST object that was handed to an executor before (with MetaData the second translation loses the metadata: theorem leak_counterexample_reused_ast and the listed finding)",
     "generated names only need to be consistent: results are compared up to one bijective renumbering of identifiers that end in digits",
     "what a translation shows its caller = ending (ok / stage + exception class), the rendered files, extended_md(k) for the kinds the caller registered, and the WARNING-and-above records the library logs while translating (compared like a file)",
     "the names one translation generates do not collide (unique_name = name ++ index is not injective, e.g. columns `x1` and `x`: theorem leak_counterexample_name_counter and the listed finding; the catalogue queries have no such column names)",
@@ -246,6 +259,231 @@ def ext_md(rng, kind):
     return {"metadata_type": kind, ("image" if kind == "docker" else "val"): rng.choice(["A", "B", "img:1"])}
 
 
+# =============================================================================== query families (generated, not listed)
+# Besides the listed catalogue the generator draws queries from a small typed grammar: one collection of the backend,
+# element-level expressions over methods the query declares for itself (return types from inside AND outside the three
+# types the translator ranks), default-typed methods, constants, the documented math functions, C++ functions the query
+# declares for itself (under fresh names and under the names of math functions), in six query shapes.  These are the
+# parts of a translation that go through module-level tables other than the method-type registry: the ranking of
+# arithmetic types (common/utils.py), the function mapping (common/cpp_functions.py), the C++ function finder.
+FAM_ELEM = {"atlas": ("Jets", "AntiKt4", "xAOD::Jet"), "cms_aod": ("Muons", "muons", "reco::Muon"), "cms_miniaod": ("Muons", "slimmedMuons", "pat::Muon")}
+FAM_RANKED = ["int", "float", "double"]
+FAM_UNRANKED = ["short", "unsigned int", "unsigned long", "long", "long double"]
+FAM_DEFAULT_METHODS = ["pt", "eta", "phi", "px", "py"]  # no registry entry: the translator assumes double (and says so)
+FAM_METHODS_P = ["nA", "nB", "wA"]  # declared by the query itself
+FAM_METHODS_H = ["hA", "hB", "hC"]  # the same, never used by a probe (for history queries expected to fail)
+MATH1 = ["sin", "cos", "tan", "atan", "sinh", "tanh", "exp", "log", "log10", "sqrt", "cbrt", "erf", "ceil", "floor", "trunc", "round", "fabs", "abs"]
+MATH2 = ["atan2", "hypot", "pow", "fmod", "fmax", "fmin", "copysign", "fdim"]
+USER_FN_NAMES = ["MyF", "scale2", "combine"]
+RANK = {"int": 0, "float": 1, "double": 2}
+
+
+class _Fam:
+    """one draw of a family query; keeps what the expression uses while it is built"""
+
+    def __init__(self, rng, b, methods, types_pool, fn_bias, allow_userfn, userfn_names, plain=False):
+        self.rng, self.b, self.plain = rng, b, plain
+        self.coll, self.bank, self.elem = FAM_ELEM[b]
+        self.decl: Dict[str, str] = {}  # method -> declared return type
+        self.methods, self.types_pool = methods, types_pool
+        self.fn_bias = list(fn_bias)
+        self.allow_userfn, self.userfn_names = allow_userfn, userfn_names
+        self.userfns: Dict[str, Dict[str, Any]] = {}
+        self.calls: List[str] = []
+        self.used: List[str] = []
+        self.unranked_arith = False
+
+    def leaf(self, v):
+        rng = self.rng
+        r = rng.random()
+        if r < 0.5 and not self.plain:
+            m = rng.choice(self.methods)
+            if m not in self.decl:
+                self.decl[m] = rng.choice(self.types_pool)
+            if m not in self.used:
+                self.used.append(m)
+            return f"{v}.{m}()", self.decl[m]
+        if r < 0.8:
+            m = rng.choice(FAM_DEFAULT_METHODS)
+            if m not in self.used:
+                self.used.append(m)
+            return f"{v}.{m}()", "double"
+        c = rng.choice(["1", "2", "10", "0.5", "2.5"])
+        return c, ("double" if "." in c else "int")
+
+    def math_name(self, arity):
+        pool = MATH1 if arity == 1 else MATH2
+        biased = [f for f in self.fn_bias if f in pool]
+        if biased and self.rng.random() < 0.6:
+            return self.rng.choice(biased)
+        return self.rng.choice(pool)
+
+    def expr(self, v, depth):
+        rng = self.rng
+        if depth <= 0 or rng.random() < 0.25:
+            return self.leaf(v)
+        r = rng.random()
+        if r < 0.45:
+            (a, ta), (b, tb) = self.expr(v, depth - 1), self.expr(v, depth - 1)
+            op = rng.choice(["+", "-", "*", "/"])
+            if ta not in RANK or tb not in RANK:
+                self.unranked_arith = True
+                t = ta if ta not in RANK else tb
+            else:
+                t = "double" if op == "/" else (ta if RANK[ta] >= RANK[tb] else tb)
+            return f"({a} {op} {b})", t
+        if r < 0.75 or (r < 0.93 and not self.allow_userfn):
+            arity = 1 if rng.random() < 0.6 else 2
+            f = self.math_name(arity)
+            args = [self.expr(v, depth - 1)[0] for _ in range(arity)]
+            self.calls.append(f)
+            return f"{f}({', '.join(args)})", "double"
+        if r < 0.93:
+            return self.userfn(v, depth)
+        a, ta = self.expr(v, depth - 1)
+        return f"(-{a})", ta
+
+    def userfn(self, v, depth, force_bias=False):
+        """a call of a C++ function the query declares for itself — under a fresh name or under the name of a math
+        function (the names another query of the case calls are preferred)"""
+        rng = self.rng
+        arity = 1 if rng.random() < 0.5 else 2
+        if force_bias and self.fn_bias:
+            arity = 1 if rng.choice(self.fn_bias) in MATH1 else 2
+        biased = [f for f in self.fn_bias if f in (MATH1 if arity == 1 else MATH2)]
+        if biased and (force_bias or rng.random() < 0.6):
+            f = rng.choice(biased)
+        else:
+            f = rng.choice(self.userfn_names + ([] if rng.random() < 0.5 else (MATH1 if arity == 1 else MATH2)))
+        if f in self.userfns and len(self.userfns[f]["arguments"]) != arity:
+            arity = len(self.userfns[f]["arguments"])
+        if f not in self.userfns:
+            params = ["x", "y"][:arity]
+            body = " + ".join(params) if arity == 2 else "x * 2"
+            self.userfns[f] = {"metadata_type": "add_cpp_function", "name": f, "include_files": [f"my/{f}.h"], "arguments": params, "code": [f"auto result = {body};"], "return_type": rng.choice(["double", "double", "int", "float"])}
+        args = [self.expr(v, depth - 1)[0] for _ in range(arity)]
+        self.calls.append(f)
+        return f"{f}({', '.join(args)})", self.userfns[f]["return_type"]
+
+    def top(self, v, depth, force_userfn):
+        return self.userfn(v, depth, True) if force_userfn else self.expr(v, depth)
+
+    def cond(self, v):
+        a, _ = self.expr(v, 1)
+        b, _ = self.leaf(v)
+        return f"{a} {self.rng.choice(['>', '<', '>=', '!='])} {b}"
+
+
+def gen_family_query(rng, b: str, expect_ok: Optional[bool] = None, methods=None, fn_bias=(), type_bias=(), allow_userfn=True, plain=False, force_userfn=False, decl: Optional[Dict[str, str]] = None, chain=False) -> Dict[str, Any]:
+    """a catalogue-like entry {b, q, keys, needs, end, fam, calls, types}.  `end` is the ending expected on the library
+    as it is (arithmetic on a type the translator does not rank is refused in write_cpp_files): it only steers the
+    generator, the judge is the fresh interpreter.  `fn_bias` / `type_bias`: function names / return types another
+    query of the same case uses (histories are drawn to touch what the probe touches).
+    `plain`: no metadata at all (default-typed methods, constants, math functions).  `force_userfn`: the column is a
+    call of a declared C++ function named like one of `fn_bias`.  `decl`: return types of (some of) the methods, fixed
+    in advance; with `chain` the column is `m1() op m2() op ...` over exactly these methods in this order (a sibling of
+    another query of the case: the same return types met in another order)."""
+    fn_bias = [f for f in fn_bias if f in MATH1 or f in MATH2]
+    force_userfn = force_userfn and bool(fn_bias) and not plain
+    for _ in range(20):
+        if expect_ok:
+            pool = FAM_RANKED
+        else:
+            # two of the unranked types per query (so that two queries of a case meet on them), the other query's first
+            two = rng.sample(FAM_UNRANKED, 2)
+            pool = ([] if rng.random() < 0.5 else [rng.choice(FAM_RANKED)]) + two * 2 + [t for t in type_bias if t in FAM_UNRANKED] * 3
+        g = _Fam(rng, b, methods or FAM_METHODS_P, pool, fn_bias, allow_userfn and not plain, USER_FN_NAMES, plain=plain)
+        if decl:
+            g.decl.update(decl)
+        coll = f"e.{g.coll}('{g.bank}')"
+        shape = rng.choice(["flat", "flat", "where", "vector", "count", "dict", "sum"])
+        depth = rng.choice([1, 1, 2, 2, 3])
+        if chain and decl:
+            x, t = "", ""
+            for m, mt in decl.items():
+                g.used.append(m)
+                if x and (t not in RANK or mt not in RANK):
+                    g.unranked_arith = True
+                x, t = (f"({x} {rng.choice(['+', '-', '*'])} j.{m}())" if x else f"j.{m}()"), (mt if (not x or mt not in RANK or (t in RANK and RANK[mt] >= RANK[t])) else t)
+            shape = "chain"
+            q = f"Select(SelectMany(DS, lambda e: {coll}), lambda j: {x})" if rng.random() < 0.6 else f"Select(DS, lambda e: {coll}.Select(lambda j: {x}))"
+        elif shape == "flat":
+            q = f"Select(SelectMany(DS, lambda e: {coll}), lambda j: {g.top('j', depth, force_userfn)[0]})"
+        elif shape == "where":
+            q = f"Select(Where(SelectMany(DS, lambda e: {coll}), lambda j: {g.cond('j')}), lambda j: {g.top('j', depth, force_userfn)[0]})"
+        elif shape == "vector":
+            q = f"Select(DS, lambda e: {coll}.Select(lambda j: {g.top('j', depth, force_userfn)[0]}))"
+        elif shape == "count":
+            q = f"Select(DS, lambda e: {coll}.Where(lambda j: {g.cond('j')}).Count())"
+        elif shape == "dict":
+            q = f"Select(DS, lambda e: {{'a': {coll}.Select(lambda j: {g.top('j', depth, force_userfn)[0]}), 'b': {coll}.Select(lambda k: {g.expr('k', max(1, depth - 1))[0]})}})"
+        else:
+            x, t = g.expr("j", max(1, depth - 1))
+            if t not in RANK:
+                g.unranked_arith = True
+            q = f"Select(DS, lambda e: {coll}.Select(lambda j: {x}).Sum())"
+        end = "write" if g.unranked_arith else "ok"
+        if expect_ok is not None and (end == "ok") != expect_ok:
+            continue
+        break
+    needs = [{"metadata_type": "add_method_type_info", "type_string": g.elem, "method_name": m, "return_type": t} for m, t in g.decl.items()]
+    needs += list(g.userfns.values())
+    rng.shuffle(needs)
+    return {"b": b, "q": q, "keys": [[g.elem, m] for m in g.used], "needs": needs, "end": end, "fam": shape, "calls": sorted(set(g.calls)), "types": sorted(set(g.decl.values())), "userfns": sorted(g.userfns)}
+
+
+def op_text(op: Dict[str, Any]) -> str:
+    """the query an operation (or probe) translates, as one text: a derived query with its inner query written out"""
+    if op.get("inner"):
+        return op["q"].replace("OBJ", op["inner"]["q"])
+    return op["q"]
+
+
+def op_md(op: Dict[str, Any]) -> List[Dict[str, Any]]:
+    return list(op["inner"]["md"]) if op.get("inner") else list(op["md"])
+
+
+def gen_derived(rng, b: str) -> Dict[str, Any]:
+    """Queries DERIVED from one query object (`q.Where(..)`, `q.Select(..)` of an ObjectStream `q`): the AST of the
+    derived query contains the AST object of `q` as a sub-tree.  Returns the inner query and a function drawing outer
+    queries (text with the placeholder OBJ).  The inner query stays inside the class where the library as it is keeps
+    the caller's object usable: no MetaData, no Where and no call of a function by name inside it (listed findings
+    `derived query after a math call` / `two derived queries over a stream with a Where`)."""
+    coll, bank, elem = FAM_ELEM[b]
+    src = f"SelectMany(DS, lambda e: e.{coll}('{bank}'))"
+
+    def arith(v, depth):
+        if depth <= 0 or rng.random() < 0.3:
+            return rng.choice([f"{v}.{m}()" for m in FAM_DEFAULT_METHODS] + ["2", "0.5"])
+        if rng.random() < 0.15:
+            return f"(-{arith(v, depth - 1)})"
+        return f"({arith(v, depth - 1)} {rng.choice(['+', '-', '*', '/'])} {arith(v, depth - 1)})"
+
+    g = _Fam(rng, b, FAM_METHODS_P, FAM_RANKED, (), False, USER_FN_NAMES, plain=True)
+    if rng.random() < 0.5:
+        inner_q, methods = src, []
+
+        def outer():
+            x = g.expr("k", rng.choice([1, 2]))[0]
+            if rng.random() < 0.5:
+                return f"Select(OBJ, lambda k: {x})"
+            return f"Select(Where(OBJ, lambda k: {g.cond('k')}), lambda k: {x})"
+    else:
+        inner_q = f"Select({src}, lambda j: {arith('j', rng.choice([0, 1, 2]))})"
+
+        def outer():
+            r = rng.random()
+            c = rng.choice(["1", "2.5", "10"])
+            if r < 0.35:
+                return f"Where(OBJ, lambda x: x {rng.choice(['>', '<', '!='])} {c})"
+            f = rng.choice(MATH1)
+            if r < 0.7:
+                return f"Select(OBJ, lambda x: {rng.choice([f'x * {c}', f'{f}(x)', f'{f}(x) + {c}', f'(-x)'])})"
+            return f"Select(Where(OBJ, lambda x: x > {c}), lambda y: {rng.choice([f'y + {c}', f'{f}(y)'])})"
+
+    return {"inner": {"obj": "P", "q": inner_q, "md": []}, "outer": outer, "g": g, "elem": elem}
+
+
 # =============================================================================== generator
 def gen_extras(rng, b: str, avoid_keys, avoid_tops, ok_intent: bool, allow_job=True, n_max=3) -> List[Dict[str, Any]]:
     md: List[Dict[str, Any]] = []
@@ -273,29 +511,84 @@ def gen_extras(rng, b: str, avoid_keys, avoid_tops, ok_intent: bool, allow_job=T
     return md
 
 
+def _plain_catalog(b):
+    """catalogue queries of the backend that carry no metadata (their AST object may be translated more than once)"""
+    return [k for k, v in CATALOG.items() if v["b"] == b and not v.get("needs")]
+
+
 def gen_case(rng, tier: str) -> Dict[str, Any]:
     b = rng.choice(["atlas", "atlas", "cms_aod", "cms_miniaod"])
-    eligible = [k for k, v in CATALOG.items() if v["b"] == b and (v.get("end", "ok") == "ok") == (rng.random() < 0.8)] or [k for k, v in CATALOG.items() if v["b"] == b]
-    pq = rng.choice(eligible)
-    pc = CATALOG[pq]
+    # a quarter of the cases hand the probe's own AST object to an executor once or more BEFORE the probe (a caller
+    # evaluating one query object again): only for queries without MetaData — with MetaData the library as it is loses
+    # the metadata on the second translation (listed finding `reusedAst`)
+    mode = rng.random()
+    reuse = mode < 0.25
+    derived = gen_derived(rng, b) if mode < 0.08 else None
+    r = rng.random()
+    if derived:
+        # ... or queries derived from one query object: the probe is `outer(P)`, the history translates P itself
+        # and/or other queries derived from it
+        q = derived["outer"]()
+        text = q.replace("OBJ", derived["inner"]["q"])
+        pc = {"b": b, "q": text, "keys": [[derived["elem"], m] for m in FAM_DEFAULT_METHODS if f".{m}()" in text], "needs": [], "end": "ok", "calls": sorted(set(derived["g"].calls)), "outer": q}
+    elif reuse:
+        if r < 0.6:
+            pc = gen_family_query(rng, b, plain=True)
+        else:
+            pc = CATALOG[rng.choice(_plain_catalog(b))]
+    elif r < 0.45:
+        if rng.random() < 0.6:
+            pc = gen_family_query(rng, b, expect_ok=True)
+        elif rng.random() < 0.5:
+            pc = gen_family_query(rng, b, expect_ok=False)
+        else:
+            # a column that is one arithmetic chain over two or three declared methods, two of them of unranked types
+            ts = rng.sample(FAM_UNRANKED, 2) + ([rng.choice(FAM_RANKED + FAM_UNRANKED)] if rng.random() < 0.4 else [])
+            rng.shuffle(ts)
+            pc = gen_family_query(rng, b, decl=dict(zip(FAM_METHODS_P, ts)), chain=True)
+    else:
+        eligible = [k for k, v in CATALOG.items() if v["b"] == b and (v.get("end", "ok") == "ok") == (rng.random() < 0.8)] or [k for k, v in CATALOG.items() if v["b"] == b]
+        pc = CATALOG[rng.choice(eligible)]
     K = [list(k) for k in pc["keys"]]
     N = expr_names(pc["q"])
+    p_calls, p_types = list(pc.get("calls", [])), list(pc.get("types", []))
     probe_md = list(pc.get("needs", []))
     probe_x: Dict[str, str] = {}
     r = rng.random()
-    if r < 0.2:
+    if reuse:
+        pass
+    elif r < 0.2:
         kind = rng.choice(XKINDS)
         probe_x = {kind: rng.choice(["img", "img2"])}
         if rng.random() < 0.7:
             probe_md.append(ext_md(rng, kind))
     elif r < 0.3:
         probe_md.append(ext_md(rng, rng.choice(XKINDS)))  # not registered: must be refused in both worlds
-    if rng.random() < 0.5:
+    if not reuse and rng.random() < 0.5:
         probe_md = probe_md + gen_extras(rng, b, [], [], True, n_max=2)
-    if rng.random() < 0.2 and not any(m.get("metadata_type") == "add_job_script" for m in probe_md):
+    if not reuse and rng.random() < 0.2 and not any(m.get("metadata_type") == "add_job_script" for m in probe_md):
         # one job-script block that depends on nothing and says so by leaving `depends_on` out
         n = rng.choice(sorted(JOBS))
         probe_md.append({"metadata_type": "add_job_script", "name": n, "script": list(JOBS[n])})
+    n_sib: List[int] = []
+
+    def sibling(eb):
+        """a sibling of the probe: the probe's declared return types, on other methods, met in another order"""
+        ts = list(p_types)
+        rng.shuffle(ts)
+        return gen_family_query(rng, eb, methods=FAM_METHODS_H, decl=dict(zip(FAM_METHODS_H, ts)), chain=rng.random() < 0.6, fn_bias=p_calls, type_bias=p_types, expect_ok=all(t in RANK for t in ts))
+
+    def shared_op(e):
+        """one earlier translation that shares AST nodes with the probe: the probe's own object, or (derived queries)
+        the inner object alone / another query derived from it"""
+        if derived:
+            if rng.random() < 0.5:
+                return {"op": "tr", "e": e, "q": derived["inner"]["q"], "md": [], "obj": "P"}
+            return {"op": "tr", "e": e, "q": derived["outer"](), "md": [], "inner": dict(derived["inner"])}
+        if pc.get("end", "ok") == "ok":
+            was_reset[e] = True
+        return {"op": "tr", "e": e, "q": pc["q"], "md": [], "obj": "P"}
+
     on_existing = rng.random() < 0.55
     nmax = 8 if tier == "quick" else 14
     n = rng.randint(1, nmax)
@@ -336,8 +629,32 @@ def gen_case(rng, tier: str) -> Dict[str, Any]:
                 elif must_succeed:
                     hist.pop()
             continue
-        intent = rng.choices(["ok", "md", "transform", "finder", "wrong", "write"], [60, 9, 5, 5, 6, 15])[0]
         same = on_existing and e == e0
+        if reuse and eb == b and rng.random() < 0.3:
+            hist.append(shared_op(e))
+            continue
+        # (a probe of the generated families meets more history queries of its kind)
+        intent = rng.choices(["ok", "md", "transform", "finder", "wrong", "write", "fam"], [45, 9, 5, 5, 6, 12, 60 if "fam" in pc else 25])[0]
+        if intent == "fam":
+            # a query of the generated families, drawn to touch the function names and return types the probe uses
+            okq = rng.random() < 0.6
+            if len(p_types) >= 2 and rng.random() < 0.5:
+                f = sibling(eb)
+                okq = f["end"] == "ok"
+                n_sib.append(1)
+            else:
+                f = gen_family_query(rng, eb, expect_ok=okq, methods=(FAM_METHODS_P + FAM_METHODS_H) if okq else FAM_METHODS_H, fn_bias=p_calls, type_bias=p_types, force_userfn=bool(p_calls) and rng.random() < 0.4)
+            if okq:
+                md = list(f["needs"]) + gen_extras(rng, eb, [], N, True)
+                if K and rng.random() < 0.3:
+                    ty, m = rng.choice(K)
+                    md.append({"metadata_type": "add_method_type_info", "type_string": ty, "method_name": m, "return_type": rng.choice(RTYPES)})
+                rng.shuffle(md)
+                was_reset[e] = True
+            else:
+                md = list(f["needs"]) + gen_extras(rng, eb, K, N, False, allow_job=not same)
+            hist.append({"op": "tr", "e": e, "q": f["q"], "md": md})
+            continue
         if intent == "ok":
             q = rng.choice([k for k, v in CATALOG.items() if v["b"] == eb and v.get("end", "ok") == "ok" and v.get("history", True)])
             md = list(CATALOG[q].get("needs", []))
@@ -381,7 +698,30 @@ def gen_case(rng, tier: str) -> Dict[str, Any]:
                 if intent == "write" and eb == "atlas" and not same and rng.random() < 0.3:
                     md = [m for m in md if m.get("metadata_type") != "add_job_script"] + gen_job_md(rng, True)
         hist.append({"op": "tr", "e": e, "q": CATALOG[q]["q"], "md": md})
+    if "fam" in pc and len(p_types) >= 2 and not n_sib and rng.random() < 0.7:
+        # at least one sibling somewhere in the history (on any executor: the tables a return type goes through are global)
+        if not backs:
+            hist.append({"op": "new", "b": b})
+            backs.append(b)
+        e = rng.randrange(len(backs))
+        f = sibling(backs[e])
+        first = next(i for i, o in enumerate(hist) if o["op"] == "new" and sum(1 for o2 in hist[: i + 1] if o2["op"] == "new") == e + 1)
+        hist.insert(rng.randint(first + 1, len(hist)), {"op": "tr", "e": e, "q": f["q"], "md": list(f["needs"])})
     probe = {"b": b, "on": e0, "x": probe_x, "q": pc["q"], "md": probe_md}
+    if reuse:
+        if derived:
+            probe.update({"q": pc["outer"], "inner": dict(derived["inner"])})
+        else:
+            probe["obj"] = "P"
+        if not any(o.get("obj") == "P" or o.get("inner") for o in hist):
+            # at least one earlier translation of the object, on some executor of the probe's backend
+            if b not in backs:
+                hist.append({"op": "new", "b": b})
+                backs.append(b)
+            es = [i for i, x in enumerate(backs) if x == b]
+            e = rng.choice(es)
+            first = next(i for i, o in enumerate(hist) if o["op"] == "new" and sum(1 for o2 in hist[: i + 1] if o2["op"] == "new") == e + 1)
+            hist.insert(rng.randint(first + 1, len(hist)), shared_op(e))
     return {"history": hist, "probe": probe}
 
 
@@ -482,23 +822,48 @@ def x_model(x: Dict[str, str]) -> List[List[str]]:
 
 
 def history_model(case, outs) -> List[Dict[str, Any]]:
+    """The model has no AST objects: a translation of an object that was handed to an executor before is the
+    translation of the same text WITHOUT its MetaData (Model.lean `reuseProbe`: extract_metadata removes the MetaData
+    nodes from the caller's object).  The main stream shares only objects without MetaData, where this is the identity."""
     impl = _impl()
     res = []
+    seen = set()
     for op, out in zip(case["history"], outs):
         if op["op"] == "new":
             res.append({"o": "new", "b": op["b"]})
         elif op["op"] == "addx":
             res.append({"o": "addx", "e": op["e"], "x": x_model(op["x"])})
         else:
-            res.append({"o": "tr", "e": op["e"], "q": q_model(op["q"], out["keys"], out["names"], declared=False), "md": [impl.md_to_model(m) for m in op["md"]], "r": res_model(out)})
+            lab = op_label(op)
+            md = [] if lab in seen else op_md(op)
+            if lab is not None:
+                seen.add(lab)
+            res.append({"o": "tr", "e": op["e"], "q": q_model(op_text(op), out["keys"], out["names"], declared=False), "md": [impl.md_to_model(m) for m in md], "r": res_model(out)})
     return res
 
 
-def probe_model(probe, out_after, out_fresh) -> Dict[str, Any]:
+def op_label(op) -> Optional[str]:
+    """label of the AST object that carries the operation's MetaData nodes (the whole query, or the inner query)"""
+    return op["inner"].get("obj") if op.get("inner") else op.get("obj")
+
+
+def probe_reused(case) -> bool:
+    lab = op_label(case["probe"])
+    return lab is not None and any(op_label(o) == lab for o in case["history"] if o["op"] == "tr")
+
+
+def shares_nodes(case) -> str:
+    p = case["probe"]
+    if not probe_reused(case):
+        return ""
+    return " (derived from a query object translated before)" if p.get("inner") else " (AST object translated before)"
+
+
+def probe_model(probe, out_after, out_fresh, reused: bool = False) -> Dict[str, Any]:
     impl = _impl()
     keys = list(out_after.get("keys", [])) + list((out_fresh or {}).get("keys", []))
     names = list(out_after.get("names", [])) + list((out_fresh or {}).get("names", []))
-    return {"b": probe["b"], "x": x_model(probe.get("x", {})), "q": q_model(probe["q"], keys, names), "md": [impl.md_to_model(m) for m in probe["md"]], "r": res_model(out_after)}
+    return {"b": probe["b"], "x": x_model(probe.get("x", {})), "q": q_model(op_text(probe), keys, names), "md": [impl.md_to_model(m) for m in op_md(probe)], "r": res_model(out_after), "reused": reused}
 
 
 def obs_of(out: Dict[str, Any]) -> Dict[str, Any]:
@@ -626,7 +991,7 @@ def evaluate(ctx, cases: List[Dict[str, Any]], stream: str, judge: bool = True, 
 
     def requests(case, run):
         fr = fresh_cache[fresh_of(case["probe"])]
-        req = {"op": "run", "history": history_model(case, run["ops"]), "probe": probe_model(case["probe"], run["probe"], fr), "on": case["probe"].get("on")}
+        req = {"op": "run", "history": history_model(case, run["ops"]), "probe": probe_model(case["probe"], run["probe"], fr, probe_reused(case)), "on": case["probe"].get("on")}
         if follow_impl:
             req["states"] = [abs_state(st) for st in run["states"]]
         return req
@@ -680,6 +1045,14 @@ def evaluate(ctx, cases: List[Dict[str, Any]], stream: str, judge: bool = True, 
             ctx.count("op:" + o["op"])
             for m in o.get("md", []):
                 ctx.count("md:" + str(m.get("metadata_type")))
+            if o["op"] == "tr":
+                ctx.count("op-query:" + ("catalogue" if o["q"] in BY_EXPR else "generated-family") + (" (shares AST nodes with the probe)" if op_label(o) else ""))
+        ctx.count("probe-query:" + ("catalogue" if c["probe"]["q"] in BY_EXPR else "generated-family") + shares_nodes(c))
+        # ---- the rest of the process state (everything at module / class level the model does not have) never changes
+        for k, ist in enumerate(list(r["states"]) + [r["final"]]):
+            if ist.get("frame"):
+                ctx.disagreement("process-state-outside-the-model", {"history": hist[: k + 1], "probe": c["probe"] if k == len(hist) else None}, "no operation changes module or class level data other than the registries, the name counter and the constructor default", ist["frame"][:3])
+                break
         reached = sum(1 for o in n_tr if o["stage"] == "ok")
         nontrivial = reached >= 1 and (len(n_tr) > reached or len({o["b"] for o in hist if o["op"] == "new"}) >= 2 or sum(1 for o in hist if o["op"] == "new") >= 2)
         ctx.case(case_key(c), nontrivial, {"history": hist, "probe": c["probe"], "probe_ending_after_history": obs_of(r["probe"])["kind"], "probe_ending_fresh": obs_of(fr)["kind"], "agree": g.get("holds")})
@@ -753,7 +1126,7 @@ def known_stream(ctx):
             raise RuntimeError("harness subprocess crashed: " + r["crash"])
     reqs = []
     for e, c, r, f in zip(entries, cases, runs, fresh):
-        pm = probe_model(c["probe"], r["probe"], f)
+        pm = probe_model(c["probe"], r["probe"], f, probe_reused(c))
         hm = history_model(c, r["ops"])
         reqs.append({"op": "agree", "fresh": obs_of(f), "after": obs_of(r["probe"])})
         reqs.append({"op": "run", "history": hm, "states": [abs_state(st) for st in r["states"]], "probe": pm, "on": c["probe"].get("on")})
@@ -810,8 +1183,8 @@ def run(ctx):
     corpus = [{"history": c["history"], "probe": c["probe"]} for c in vlib.corpus_cases(ID)]
     if corpus:
         evaluate(ctx, corpus, "corpus")
-    n = 160 if ctx.tier == "quick" else 3200
-    chunk = 160
+    n = 240 if ctx.tier == "quick" else 3200
+    chunk = 240
     done = 0
     while done < n:
         cases = [gen_case(ctx.rng, ctx.tier) for _ in range(min(chunk, n - done))]
@@ -841,7 +1214,7 @@ def fails(ctx, case) -> Optional[Dict[str, Any]]:
     f = run_fresh(case["probe"])
     if "crash" in r or "crash" in f:
         return None
-    a, g = ctx.driver(DRIVER, [{"op": "run", "history": history_model(case, r["ops"]), "probe": probe_model(case["probe"], r["probe"], f), "on": case["probe"].get("on")}, {"op": "agree", "fresh": obs_of(f), "after": obs_of(r["probe"])}])
+    a, g = ctx.driver(DRIVER, [{"op": "run", "history": history_model(case, r["ops"]), "probe": probe_model(case["probe"], r["probe"], f, probe_reused(case)), "on": case["probe"].get("on")}, {"op": "agree", "fresh": obs_of(f), "after": obs_of(r["probe"])}])
     if "bad" in a or "bad" in g:
         return None
     if a["allBenign"] and not g["holds"]:
@@ -907,7 +1280,8 @@ LEVEL_TEXT = (
     "the recorded outcomes) then the probe's result equals the result in a fresh process — on a new executor "
     "(history_indep_partial) and on an existing one (history_indep_on_partial); reset_restores / success_heals_partial "
     "show that ANY earlier state is repaired by one translation that reaches reset() except enum definitions and the "
-    "shared default dict; eleven leak_counterexample_* theorems show each excluded class really breaks the statement in "
+    "shared default dict; retranslation_indep_*_partial: the same for the caller's own AST object translated again, for "
+    "queries without MetaData; twelve leak_counterexample_* theorems show each excluded class really breaks the statement in "
     "the model, and each is replayed on the real code as a listed finding. The model is tied to the code on every run by "
     "comparing the observable state after every operation of random histories and by regenerating the backends' default "
     "tables; the property itself is evaluated reference-free (fresh interpreter) on every benign history generated."
@@ -918,7 +1292,7 @@ LEVEL_NOTE = (
     "recorded look-ups on every case). Excluded by hypothesis (all listed findings): failed translations that declared a "
     "method type the probe looks up, enum definitions below a name the probe resolves, translations/constructors of "
     "another backend whose defaults the probe looks up, add_extended_md on a never-reset executor, found extended "
-    "metadata and job blocks left on the probe's own executor. Trusted: Lean kernel (axioms audited), harness, generators."
+    "metadata and job blocks left on the probe's own executor, an AST object with MetaData translated a second time. Trusted: Lean kernel (axioms audited), harness, generators."
 )
 TECHNIQUE = "Lean 4 theorems over a hand model of the inter-query state + state-by-state correspondence check against the real executors + reference-free fresh-interpreter oracle"
 DESIGN_REF = "DESIGN.md §4 C07"
